@@ -30,34 +30,13 @@ def r07_1(ck, F):
     rem = [(bb, t) for bb, t in b.calls("std::collections::HashMap::remove") if mir.last_field(b.expr(t["a"][0])) == "ports"]
     if not rem:
         raise mir.AnchorMissing("ports.remove in maybe_free_port")
-    bb, t = rem[0]
-    ce = [(switch_expr(b, s), switch_meaning(b, s, v)) for s, tb, v in controlling_edges(b, bb)]
-    flag = [e for e, m in ce if e[0] == "var" and m is True]
-    ck.expect(bool(flag), "maybe_free_port#guarded", "removal guarded by the `free` flag", "ports.remove is not guarded by a flag",
-              b.loc(bb))
-    if not flag:
-        return
-    name = flag[0][1]
-    terms = set()
-    ok_shape = True
-    for l in b.local_by_name(name):
-        for d in b.defs.get(l, []):
-            if d[0] != "assign":
-                continue
-            rv = d[3]["rv"]
-            if rv["r"] == "use":
-                ok_shape = ok_shape and const_value(b.expr(rv["o"])) == 1
-            elif rv["r"] == "bin" and rv["op"] == "BitAnd":
-                e = b.expr(rv["b"])
-                if e[0] == "call" and e[1] == "std::option::Option::is_none":
-                    terms.add(mir.last_field(e[2][0]) + ".is_none()")
-                else:
-                    terms.add(mir.last_field(e) or mir.show(e))
-            else:
-                ok_shape = False
-    want = {"sender_dropped", "receiver_dropped", "receiver_tx_data.is_none()", "remote_receiver_dropped"}
-    ck.expect(ok_shape and terms == want, "maybe_free_port#conditions", f"free = true & {sorted(terms)}",
-              f"free is built from {sorted(terms)} (expected {sorted(want)}; only `true` and `&=` updates: {ok_shape})", b.loc(bb))
+    atoms, table = bool_function(b, goal={bb for bb, t in rem})
+    want = ["sender_dropped", "receiver_dropped", "receiver_tx_data.is_none", "remote_receiver_dropped"]
+    ok, msg = same_bool_function(atoms, table, want, lambda v: all(v[a] for a in want))
+    ck.expect(ok, "maybe_free_port#conditions", f"ports.remove is reached exactly when all four hold ({msg})",
+              f"ports.remove in maybe_free_port is not guarded by exactly sender_dropped && receiver_dropped && "
+              f"receiver_tx_data.is_none() && remote_receiver_dropped: {msg}", b.loc(rem[0][0]))
+    ck.ok("maybe_free_port#guarded", f"{len(table)} valuations of {atoms} executed", b.loc(rem[0][0]))
 
 
 def r07_2(ck, F):
@@ -102,7 +81,7 @@ def r07_3(ck, F):
         in_fn = mir.strip_generics(b.path) == f"{PA}::PortAllocatorInner::try_allocate"
         ins = [x for x, t in b.calls("std::collections::HashSet::insert") if mir.last_field(b.expr(t["a"][0])) == "used"]
         after_insert = any(b.dominates(x, bb) for x in ins)
-        ce = [(switch_expr(b, s), switch_meaning(b, s, v)) for s, tb, v in controlling_edges(b, bb)]
+        ce = conds(b, bb)
         avail = any(e[0] == "call" and e[1].endswith("is_available") and m is True for e, m in ce)
         fresh = any(e[0] == "call" and e[1] == "std::collections::HashSet::contains" and m is False for e, m in ce)
         ck.expect(in_fn and after_insert and avail and fresh, f"PortNumber#construct@{mir.strip_generics(b.path)}",
@@ -145,30 +124,17 @@ def r07_4(ck, F):
             "ends only on goodbye_sent && goodbye_received && send_task_ended",
             "the dispatcher says Goodbye while a port / request is still live, or never terminates", floor=2)
     b = F.main_body("chmux::mux::ChMux::should_terminate")
-    ands = ors = 0
-    for l in b.local_by_name("terminate"):
-        for d in b.defs.get(l, []):
-            if d[0] == "assign" and d[3]["rv"]["r"] == "bin":
-                ands += d[3]["rv"]["op"] == "BitAnd"
-                ors += d[3]["rv"]["op"] == "BitOr"
-    # fields of self read anywhere in the predicate
-    reads = set()
-    for bb, i, s in b.assigns():
-        for key in ("o", "a", "b"):
-            o = s["rv"].get(key)
-            if o and o[0] != "k":
-                e = b.expr(o)
-                if e[0] == "path" and e[1].startswith("self."):
-                    reads.add(e[1].split(".")[1])
-        if s["rv"]["r"] == "ref":
-            e = b.expr(["c", s["rv"]["p"]])
-            if e[0] == "path" and e[1].startswith("self."):
-                reads.add(e[1].split(".")[1])
-    want = {"ports", "all_clients_dropped", "remote_listener_dropped", "listen_tx", "remote_client_dropped",
-            "outstanding_remote_port_requests", "goodbye_sent", "goodbye_received"}
-    ck.expect(ands == 4 and ors == 2 and reads == want, "should_terminate", f"4 conjuncts, 2 disjuncts over {sorted(reads)}",
-              f"should_terminate has {ands} `&=` and {ors} `|=` updates over {sorted(reads)}; documented: 4 / 2 over {sorted(want)}",
-              b.loc(0))
+    atoms, table = bool_function(b)
+    want = ["ports.is_empty", "all_clients_dropped", "remote_listener_dropped.load", "listen_tx.is_none", "remote_client_dropped",
+            "outstanding_remote_port_requests.is_empty", "goodbye_sent", "goodbye_received"]
+    ok, msg = same_bool_function(
+        atoms, table, want,
+        lambda v: (v["ports.is_empty"] and (v["all_clients_dropped"] or v["remote_listener_dropped.load"]) and
+                   (v["listen_tx.is_none"] or v["remote_client_dropped"]) and v["outstanding_remote_port_requests.is_empty"])
+        or v["goodbye_sent"] or v["goodbye_received"])
+    ck.expect(ok, "should_terminate", f"should_terminate {msg}",
+              f"should_terminate is not (ports empty && (clients dropped || remote listener dropped) && (listener dropped || "
+              f"remote client dropped) && no outstanding requests) || goodbye_sent || goodbye_received: {msg}", b.loc(0))
     run = F.main_body("chmux::mux::ChMux::run")
     # loop guard: the switch chain at the loop head mentions exactly these
     heads = sorted({h for _, h in run.back_edges()})
